@@ -16,13 +16,29 @@ from .model import AnalysisError, Program
 from .report import Ctx, split_known, write_evidence, write_replay
 
 
+ROBUST_RULES = ("ID", "G5", "M9")
+
+
 def run_rules(prop, repo, tier="quick", seed=0):
     """Analyse ``repo`` for one property; returns (ctx, module)."""
     mod = importlib.import_module("sa.rules.%s" % prop.lower())
     program = Program(repo)
     ctx = Ctx(prop, program, tier=tier, seed=seed)
-    mod.run(ctx)
     from .report import split_known as _sk
+    from .rules.common import rule_identity_scope
+    try:
+        rule_identity_scope(ctx)
+        mod.run(ctx)
+    except AnalysisError as exc:
+        # A rule could not follow the code.  What the structural rules reported before that point was judged against a shape
+        # the code no longer has, so it is withdrawn together with the rest (no verdict) - except the findings of the local,
+        # shape-independent identity lint (a node compared / hashed / iterated by value is that wherever it stands).
+        robust = [f for f in _sk(ctx)[1] if f.rule in ROBUST_RULES]
+        if not robust:
+            raise
+        known = [f for f, _ in _sk(ctx)[0]]
+        ctx.findings = known + robust
+        ctx.notes.append("the structural rules gave no verdict: %s" % exc)
     if not _sk(ctx)[1]:
         # floors guard against a rule silently losing its subject; when the run
         # already reports a new violation the verdict is that violation
@@ -54,7 +70,8 @@ def main(argv=None):
         if args.tier == "thorough" and not new and not args.no_selftest:
             from .selftest import runner
             extra = runner.validate(prop, args.repo, seed)
-        path = write_evidence(ctx, mod.LEVEL, mod.EXPLANATION, mod.ASSUMPTIONS, hits, new, extra)
+        from .rules.common import explanation_of
+        path = write_evidence(ctx, mod.LEVEL, explanation_of(mod, prop), mod.ASSUMPTIONS, hits, new, extra)
         n_inst = sum(ctx.instances.values())
         print("%s %s: analysed %d modules, %d functions, %d rule instances (%s); %.2fs" % (
             prop, args.tier, len(ctx.p.modules), len(ctx.functions), n_inst,
